@@ -5,6 +5,7 @@ from sa.forward import Forward, attribute_summary
 from sa.dataflow import Poly, cmp_key, cmp_atoms
 from sa.resolve import walk_function
 
+TECHNIQUE = "static analysis (ast): ordering / exactly-once rules on the CFG of Broker.rebalance and TradingEnv.step, alias rules for the snapshot (copies, not live ledgers), value-id comparison of every reward class's formula (resolved through the MRO) and of the track-record reports"
 EXPLANATION = (
     "Decides the structural clauses of C07: (S1) Broker.rebalance reaches TrackRecord._checkpoint exactly once on every normal path, nobody "
     "else calls it, only __init__/_checkpoint write the record's containers and both are extended on the same paths with the same key; "
